@@ -412,6 +412,49 @@ NO_PRESIMPLIFY = bool(_os.environ.get("PYVC_NOSIMP"))
 THEORY_SYMBOLS = ("tcount", "tsize", "lcnt", "undo_cells", "undo_hand", "rsum", "digit", "popcount", "band", "bor", "fsum", "ftot")
 
 
+def goal_directed_instances(ob):
+    """For a goal of the shape  forall x. (R -> forall y. (S -> B)) : the goal with its bound variables replaced by
+    fresh constants (equivalent: the quantifiers stand in positive positions), and the instances of the quantified
+    hypotheses of the same shape at those constants (consequences of the hypotheses).  E-matching finds these instances
+    only when a trigger term happens to be present - array reads at arithmetic offsets are poor triggers, and such
+    proofs then depend on the names z3 sees first.  Returns (hypotheses + instances, ground goal) or None."""
+    levels = []
+
+    def sk(e):
+        if z3.is_quantifier(e) and e.is_forall():
+            cs = [z3.Const(fresh_name("sk_" + e.var_name(i)), e.var_sort(i)) for i in range(e.num_vars())]
+            levels.append(cs)
+            return sk(z3.substitute_vars(e.body(), *reversed(cs)))
+        if z3.is_implies(e):
+            return z3.Implies(e.arg(0), sk(e.arg(1)))
+        return e
+    ground = sk(ob.goal)
+    if not levels:
+        return None
+
+    def inst(e, depth):
+        if depth >= len(levels):
+            return None
+        if z3.is_quantifier(e) and e.is_forall():
+            cs = levels[depth]
+            if e.num_vars() != len(cs) or any(e.var_sort(i) != cs[i].sort() for i in range(len(cs))):
+                return None
+            body = z3.substitute_vars(e.body(), *reversed(cs))
+            deeper = inst(body, depth + 1)
+            return z3.And(body, deeper) if deeper is not None else body
+        if z3.is_implies(e):
+            r = inst(e.arg(1), depth)
+            return z3.Implies(e.arg(0), r) if r is not None else None
+        if z3.is_and(e):
+            rs = [r for r in (inst(c, depth) for c in e.children()) if r is not None]
+            return z3.And(*rs) if rs else None
+        return None
+    extra = [r for r in (inst(h, 0) for h in ob.pc) if r is not None]
+    if not extra:
+        return None
+    return list(ob.pc) + extra, ground
+
+
 def relevant_hypotheses(ob):
     """drop hypotheses that speak about a ghost-theory symbol the goal does not mention (dropping hypotheses is
     always sound; used as an additional attempt to keep queries small)"""
@@ -915,6 +958,9 @@ def _verify_with(eng, key, ctx, timeout_ms, alias, override, fi_override=None):
         # evidence); the quick tier (timeout_ms 20000) therefore spends at most ~80 s on an obligation that fails
         q = timeout_ms // 3
         plan = [(min(timeout_ms, 8000), 0, False, None)]
+        gdi = goal_directed_instances(ob)
+        if gdi is not None:
+            plan.append((min(timeout_ms, 8000), 0, False, "instances"))
         if small is not None:
             # then fewer hypotheses (sound: a subset).  (Trying the subset FIRST was measured to be worse: where the
             # subset lacks a needed hypothesis the attempt runs into its timeout instead of failing fast.)
@@ -931,6 +977,15 @@ def _verify_with(eng, key, ctx, timeout_ms, alias, override, fi_override=None):
             # anyway; the remaining ones get the quick attempts only (keeps a failing check from taking many minutes)
             plan = plan[:2]
         for tmo, seed, mbqi, hyps in plan:
+            if isinstance(hyps, str):
+                # the equivalent query with the goal's bound variables named and the hypotheses instantiated there
+                status, d, reason, model, _ = solve(eng, Obligation(ob.name, gdi[0], gdi[1], ob.line, ob.kind, ob.func), tmo)
+                dt += d
+                if status == "proved":
+                    backend = "z3-" + z3.get_version_string() + " ematching (hypotheses instantiated at the goal's bound variables)"
+                    break
+                status = "unknown"
+                continue
             status, d, reason, model, _ = solve(eng, ob, tmo, seed=seed, mbqi=mbqi, pc=hyps)
             dt += d
             if status == "sat" and hyps is not None:
